@@ -69,12 +69,38 @@ def extract(repo):
         x["bfsw_cols"] = "subtract"
     else:
         raise Untranslatable("bfsw column mapping not recognised")
+    # Gauss-Seidel: the update of one bus voltage as a field expression
+    from .c04 import Sym
+    gs, _ = parse_file(f"{repo}/pandapower/pypower/gausspf.py")
+    fn = find_def(gs, "gausspf")
+    loops = [n for n in ast.walk(fn) if isinstance(n, ast.For) and _n(n.target) == "k"]
+    if len(loops) != 2:
+        raise Untranslatable("gausspf: expected the PQ and the PV bus loop")
+    ups = []
+    for lp in loops:
+        tmp = [st for st in lp.body if isinstance(st, ast.Assign) and _n(st.targets[0]) == "tmp"]
+        upd = [st for st in lp.body if isinstance(st, ast.Assign) and _n(st.targets[0]) == "V[k]"]
+        if not tmp or len(upd) != 1 or lp.body.index(upd[0]) != lp.body.index(tmp[-1]) + 1:
+            raise Untranslatable("gausspf: voltage update not recognised")
+        sy = Sym({"conj(Sbus[k]/V[k])": "inj", "Ybus[k,:]*V": "yv", "Ybus[k,k]": "ykk", "V[k]": "vk", "tmp.item()": "TMP"})
+        e = sy.expr(upd[0].value).replace("TMP", sy.expr(tmp[-1].value))
+        ups.append(e)
+    if ups[0] != ups[1]:
+        raise Untranslatable("gausspf: PQ and PV buses are updated differently")
+    x["gs_step"] = ups[0]
+    x["gs_mis"] = "V*conj(Ybus*V)-Sbus" in _n(fn)
+    # fast-decoupled: both half iterations are 'solve with the mismatch, add the step'
+    fd, _ = parse_file(f"{repo}/pandapower/pypower/fdpf.py")
+    t = _n(find_def(fd, "fdpf"))
+    x["fd_steps"] = [w for w in ("dVa=-Bp_solver.solve(P)", "Va[pvpq]=Va[pvpq]+dVa", "dVm=-Bpp_solver.solve(Q)", "Vm[pq]=Vm[pq]+dVm",
+                                 "mis=(V*conj(Ybus*V)-Sbus)/Vm", "P=mis[pvpq].real", "Q=mis[pq].imag") if w in t]
     return x
 
 
 def render(x):
     d = ", ".join(f"({lean_str(a)}, {lean_str(c)})" for a, c in x["dispatch"])
     return f"""-- GENERATED by translate/c06.py — do not edit.
+import Mathlib.Algebra.Field.Defs
 namespace PPVerif.Generated.C06
 
 /-- algorithm name ↦ solver entry point in `_run_pf_algorithm` -/
@@ -83,6 +109,14 @@ def dispatch : List (String × String) := [{d}]
 def fastSelected (oneGen vdl ds anyBS anyGS : Bool) : Bool := {x['fast']}
 /-- column of a bus in the sweep solver's matrices: "position" among the non-reference buses, or "subtract" -/
 def bfswColumns : String := {lean_str(x['bfsw_cols'])}
+
+/-- Gauss-Seidel (`gausspf`): new voltage of bus k from inj = conj(S_k / V_k), yv = (Ybus V)_k, ykk = Ybus[k, k], vk = V_k
+    (the same statement for PQ and PV buses) -/
+def gsStep {{K : Type}} [Field K] (inj yv ykk vk : K) : K := {x['gs_step']}
+/-- the convergence test of gausspf uses the mismatch V * conj(Ybus * V) - Sbus -/
+def gsMismatchIsPowerBalance : Bool := {'true' if x['gs_mis'] else 'false'}
+/-- fast-decoupled (`fdpf`): statements found (solve with the mismatch, add the step, mismatch of the power balance) -/
+def fdSteps : List String := [{", ".join(lean_str(w) for w in x['fd_steps'])}]
 
 end PPVerif.Generated.C06
 """
